@@ -27,7 +27,8 @@ def main():
     for f in glob.glob(os.path.join(COV, "*.profraw")):
         os.remove(f)
     env = dict(os.environ, CARGO_NET_OFFLINE="true", CARGO_TARGET_DIR=TARGET,
-               RUSTFLAGS="--cfg gamedig_verif -C instrument-coverage")
+               RUSTFLAGS="--cfg gamedig_verif -C instrument-coverage",
+               LLVM_PROFILE_FILE=os.path.join(COV, "build-%p-%m.profraw"))  # build scripts are instrumented too
     if not report_only:
         r = subprocess.run(["cargo", "+nightly", "build", "--offline"], cwd=os.path.join(VERIF, "harness"), env=env)
         if r.returncode != 0:
